@@ -425,12 +425,12 @@ namespace details {
 		std::streambuf *setbuf(char *s,std::streamsize size)
 		{
 			if(full_buffering_) {
-				buffer_size_ = size;
 				std::streamsize content_size = pptr() - pbase();
-				if(size_t(size) > output_.size())
-					output_.resize(size);
+				// everything written so far stays buffered: the buffer must not shrink below it
+				buffer_size_ = size_t(size) > size_t(content_size) ? size_t(size) : size_t(content_size);
 				do_setp();
 				pbump(content_size);
+				buffer_size_ = size;
 				return this;
 			}
 			return basic_device::setbuf(s,size);
